@@ -14,7 +14,8 @@ import importlib
 mod = importlib.import_module('mc.props.' + a[1])
 sw = tuple(int(c) for c in a[4])
 npol = int(a[5]) if len(a) > 5 else 8
-cfgs = [Config(l, sw, a[2]) for l in pipeline.LANGS]
+langs = a[6].split(',') if len(a) > 6 else pipeline.LANGS
+cfgs = [Config(l, sw, a[2]) for l in langs]
 pols = [('prng', c) for c in range(1, npol + 1)]
 kw = getattr(mod, 'RUN_KW', {})
 tot = explore.explore(cfgs, pols, int(a[3]), mod.SPEC, {}, 16, 0, 16, run_kw=kw)
